@@ -70,6 +70,9 @@ META["rule"] += (
 META["rule"] += (
     " " + 'Added after the sixth round: a quarter of the originals are built from a scipy matrix (half of those with explicitly stored zeros); a quarter of the attributed originals have a copy() taken and given other link and node weights before the comparison.')
 
+META["rule"] += (
+    " " + "Added after the seventh round: the node weights are handed over as the caller's own array (refilled afterwards in 40 %), as float32 when exact.")
+
 # typical weights: chosen so that the corrected degree k/tw - 1 (a factor of
 # the corrected clustering denominators) cannot vanish exactly for integer
 # or split-integer node weights - at such points the measure is 0/0
